@@ -1,0 +1,66 @@
+//go:build verif
+
+// Contracts of the gossip wire codec and packet handlers for the deductive
+// verifier in /verif (vcgo). Comment-only.
+
+package gossip
+
+// ---------------------------------------------------------------------------
+// Encoding (C13): ghost model of the buffer the msgpack encoder writes to.
+//   bufLen        bytes written so far
+//   bufItems      number of values encoded so far
+//   bufEnd[j]     buffer length after the j-th value (bufEnd[0]: when the encoder was created)
+
+//@ ghost wrLen int
+//@ ghost wrItems int
+//@ ghost wrEnd arr[int]
+
+// encodeDigest: the returned bytes fit the packet limit, end at a value
+// boundary at or after the header, and when a value was left out the first
+// one left out did not fit.
+//@ contract encodeDigest
+//@   serves C13
+//@   ensures[fits] result1 == nil ==> len(result0) <= maxPacketSize
+//@   ensures[maximal] result1 == nil ==> (exists g int :: 1 <= g && g <= wrItems && wrEnd[g] == len(result0) && (g < wrItems ==> wrEnd[g+1] > maxPacketSize))
+//@   ensures[all-or-break] result1 == nil ==> wrItems <= len(digest) + 1
+//@   ensures[header-error] result1 == nil ==> wrEnd[1] <= maxPacketSize
+//@   loop 1 invariant[range] rangeindex < len(digest)
+//@   loop 1 invariant[items] wrItems == rangeindex + 2 && wrLen == wrEnd[wrItems] && wrEnd[1] <= maxPacketSize
+//@   loop 1 invariant[accepted] bufLen == wrLen && bufLen <= maxPacketSize && 0 <= bufLen
+
+//@ contract decodeDigest
+//@   serves C13
+//@ contract decodeDelta
+//@   serves C13
+
+// encodeDelta: as encodeDigest; values are the packet header, then per node
+// its header followed by its entries. After the inner loop has hit the limit
+// the buffer is already too long, so the next node header breaks the outer
+// loop: the prefix sent still ends where the first omitted value starts.
+//@ contract encodeDelta
+//@   serves C13 C02 C03
+//@   ensures[fits] result1 == nil ==> len(result0) <= maxPacketSize
+//@   ensures[maximal] result1 == nil ==> (exists g int :: 1 <= g && g <= wrItems && wrEnd[g] == len(result0) && (g < wrItems ==> wrEnd[g+1] > maxPacketSize))
+//@   ensures[header-error] result1 == nil ==> wrEnd[1] <= maxPacketSize
+//@   loop 1 invariant[range] rangeindex < len(delta)
+//@   loop 1 invariant[items] wrItems >= 1 && wrLen == wrEnd[wrItems] && wrEnd[1] <= maxPacketSize
+//@   loop 1 invariant[accepted] 0 <= bufLen && bufLen <= maxPacketSize
+//@   loop 1 invariant[boundary] (bufLen == wrLen) || (wrLen > maxPacketSize && (exists g int :: 1 <= g && g < wrItems && wrEnd[g] == bufLen && wrEnd[g+1] > maxPacketSize))
+//@   loop 2 invariant[items] wrItems >= 1 && wrLen == wrEnd[wrItems] && wrEnd[1] <= maxPacketSize
+//@   loop 2 invariant[accepted] 0 <= bufLen && bufLen <= maxPacketSize && bufLen == wrLen
+
+// ---- packet handlers (C13, C20): total on every input --------------------------
+
+//@ nonnil packetListener.state packetListener.failureDetector packetListener.metrics packetListener.ln
+//@ immutable packetListener.state packetListener.failureDetector packetListener.metrics packetListener.maxPacketSize packetListener.ln
+
+//@ contract (*packetListener).handlePacket
+//@   serves C13 C20
+//@ contract (*packetListener).digest
+//@   serves C13 C03 C20
+//@ contract (*packetListener).delta
+//@   serves C13 C12 C20
+//@ contract (*packetListener).sendDelta
+//@   serves C13 C20
+//@ contract (*packetListener).sendDigest
+//@   serves C13 C20
